@@ -19,7 +19,7 @@ CHECK = {'rule': 'rapid-generated terminal scripts run through the real terminal
                  'refused or cut short: for them only "never the wrong handler" and "not before the body" are required (DESIGN C16, Not asserted)',
                  'a script that does not finish within 20 s is a violation only if the log already shows a finished body whose required handler '
                  'never started; otherwise the case is inconclusive'],
- 'essential_labels': {'all': ['failing-command-stopped-its-scope-first', 'body:ok',
+ 'essential_labels': {'all': ['failing-command-stopped-its-scope-first', 'failing-command-returned-nil:kill', 'failing-command-returned-nil:stop-kill', 'failing-command-returned-nil:append', 'body:ok',
                               'body:fail',
                               'body:ok-with-task',
                               'body:fail-with-task',
